@@ -25,6 +25,7 @@ func runC17(w *core.World, r *core.Report) {
 	r.Rule("R2", "the validators are applied to the Exec parameter")
 	r.Rule("R4", "Flush: render and client writes only behind execd==true; refusal is ErrFlushNoExec")
 	r.Rule("R5", "Finish saves only behind initd==true; initd set only by the post-acceptance initialisation")
+	r.Rule("R8", "engine.Loop finishes (saves) the engine on every exit, also after a refused input")
 	r.Rule("R7", "vm.ValidInput is a function of its argument alone: no store to package-level state in it or the vm functions it calls")
 	r.Rule("R6", "the built-in input pattern is anchored at both ends and its wildcard excludes line breaks (regexp/syntax on the constant)")
 
@@ -274,6 +275,7 @@ func runC17(w *core.World, r *core.Report) {
 	}
 	// ---- R7 -----------------------------------------------------------------------------------
 	checkValidInputPure(w, r, "R7")
+	checkLoopAlwaysFinishes(w, r, "R8")
 }
 
 // pureHelper: a module function without stores to fields/globals, map updates, or calls other than
